@@ -6,7 +6,9 @@
 // replayed on two real router stacks (real hello pings, real sessions); at
 // quiescence IsSetUp and real seal/unseal in both directions are observed.
 // Stage T: TLC simulation walks (3 starts, 2 losses) replayed the same way and
-// judged by KeySetup_Trace.
+// judged by KeySetup_Trace. Stage R-link-overlap (link.go): the second way two routers get end-to-end keys - the
+// link handshake between direct peers, modelled by LinkDial / LinkRecv beside the hello actions - with one hello
+// exchange placed at every point between the handshake's messages, on three real router stacks (A, B and a relay).
 package main
 
 import (
@@ -43,6 +45,7 @@ type act struct {
 	At      string `json:"at"`
 	M       mmsg   `json:"m"`
 	Outcome string `json:"outcome"`
+	Kind    string `json:"kind"` // link handshake steps: the message read (lreq, lresp, lack, lerr)
 }
 
 type step struct {
@@ -60,6 +63,7 @@ type mstep struct {
 	after  map[string]mmsg
 	roles  string
 	bad    bool // the model of the code as it is predicts a quiescent mismatch here
+	busy   bool // a link handshake between the two routers is under way after this step
 }
 
 type live struct {
@@ -77,6 +81,13 @@ type pair struct {
 	// which is a state of its own (one-way flows) that two-way observations would never leave alone.
 	dirs  int
 	stale []staleFrame
+	// the two routers of the model (A < B). In the worlds of the link stage they are not linked to each other: a
+	// third router relays between them, and lk is the connection on which their link handshake runs (link.go).
+	na, nb, relay *world.Node
+	lk            *holdLink
+	linkStage     bool
+	setupErr      error           // the stage could not be set up (never a verdict)
+	viaLink       map[string]bool // model messages that travel over the established link
 }
 
 var pairSeq int
@@ -87,14 +98,14 @@ func newPair() *pair {
 		panic(err)
 	}
 	pairSeq++
-	return &pair{ms: ms, flights: map[string]*world.Flight{}, dirs: pairSeq % 3}
+	return &pair{ms: ms, flights: map[string]*world.Flight{}, dirs: pairSeq % 3, na: ms.Node(1), nb: ms.Node(2)}
 }
 
 func (p *pair) node(x string) *world.Node {
 	if x == "A" {
-		return p.ms.Node(1)
+		return p.na
 	}
-	return p.ms.Node(2)
+	return p.nb
 }
 func peerOf(x string) string {
 	if x == "A" {
@@ -161,6 +172,10 @@ func (p *pair) takeFlight(fl *world.Flight) bool {
 // It returns false when the real code did not follow (the run is abandoned, counted as drift).
 func (p *pair) exec(c *vf.Ctx, a act, created *mmsg) bool {
 	before := p.snapshot()
+	sentBefore := map[string]int{}
+	if p.lk != nil {
+		sentBefore["A"], sentBefore["B"] = p.lk.sent("A"), p.lk.sent("B")
+	}
 	c.Eval(1)
 	switch a.Name {
 	case "start":
@@ -199,11 +214,19 @@ func (p *pair) exec(c *vf.Ctx, a act, created *mmsg) bool {
 	case "recv":
 		fl := p.flights[key(a.M)]
 		p.steps = append(p.steps, fmt.Sprintf("recv %s(id %d stamp %d) at %s -> %s", a.M.Kind, a.M.ID, a.M.Stamp, a.M.To, a.Outcome))
+		if p.viaLink[key(a.M)] {
+			// the frame was sent over the link the two routers have by now
+			delete(p.viaLink, key(a.M))
+			if !p.linkFrameTo(a.M.To) {
+				return false
+			}
+			break
+		}
 		if fl == nil || !p.takeFlight(fl) {
 			return false
 		}
 		delete(p.flights, key(a.M))
-		_, _ = p.ms.W.Deliver(fl)
+		p.deliver(fl)
 	case "dup":
 		fl := p.flights[key(a.M)]
 		p.steps = append(p.steps, fmt.Sprintf("duplicate %s(id %d) to %s", a.M.Kind, a.M.ID, a.M.To))
@@ -221,10 +244,39 @@ func (p *pair) exec(c *vf.Ctx, a act, created *mmsg) bool {
 			return false
 		}
 		delete(p.flights, key(a.M))
+	case "dial":
+		p.steps = append(p.steps, fmt.Sprintf("link handshake: %s dials %s, both write their peering request", a.At, peerOf(a.At)))
+		if p.lk != nil || p.relay == nil {
+			return false
+		}
+		if err := p.startLink(a.At); err != nil {
+			p.setupErr = err
+			return false
+		}
+	case "lrecv":
+		p.steps = append(p.steps, fmt.Sprintf("link handshake: %s reads %s -> %s", a.At, map[string]string{"lreq": "the peering request", "lresp": "the peering response", "lack": "the peering ack", "lerr": "the end of the connection"}[a.Kind], a.Outcome))
+		if !p.linkRecv(a.At, a.Kind, a.Outcome) {
+			return false
+		}
 	default:
 		return false
 	}
 	nf := p.newFlights(before)
+	if created != nil && created.N == 2 {
+		// the answer of a router that is linked to the other by now leaves over that link
+		if len(nf) != 0 || p.lk == nil {
+			return false
+		}
+		if !p.lk.waitSent(peerOf(created.To), sentBefore[peerOf(created.To)]+1, linkStepWait) {
+			p.setupErr = fmt.Errorf("the link writer of router %s did not write the frame within %v", peerOf(created.To), linkStepWait)
+			return false
+		}
+		if p.viaLink == nil {
+			p.viaLink = map[string]bool{}
+		}
+		p.viaLink[key(*created)] = true
+		return true
+	}
 	if created != nil {
 		if len(nf) != 1 || kindOf(nf[0].Data) != created.Kind {
 			return false
@@ -263,7 +315,7 @@ type obs struct {
 
 // observe reads IsSetUp on both sides and seals/unseals a frame each way.
 func (p *pair) observe() obs {
-	a, b := p.ms.Node(1), p.ms.Node(2)
+	a, b := p.na, p.nb
 	var o obs
 	sa, sb := a.St.GetSession(b.ID.IP), b.St.GetSession(a.ID.IP)
 	o.ASet = sa != nil && sa.Encryption().IsSetUp()
@@ -359,8 +411,9 @@ func rolesOf(view string) (string, bool) {
 func main() { vf.Main("C14", "model_checking", run) }
 
 func run(c *vf.Ctx) {
-	c.Rule("M: TLC explores the whole bounded graph of the hello exchange as coded (1 start per router, 1 lost message, expiry, 'no keys' errors; every delivery order) and the driver collects every quiescent state in which both routers are set up with different keys. R: the shortest schedule to every mismatch class and a seeded sample of all other schedules replayed on two real router stacks; T: TLC simulation walks (3 starts, 2 losses) replayed; at every quiescent point IsSetUp and real seal/unseal both ways are observed and judged by TLC (KeySetup_Trace). distinct = distinct schedules executed")
-	c.Assume("a hello exchange is started through HelloPingHandler.Send exactly when the model's Start is enabled (what handleTunPacket does for a packet to a router without established encryption)", "expiry of the 30 s / 5 s windows is produced with a guarded hook")
+	c.Rule("M: TLC explores the whole bounded graph of the hello exchange as coded (1 start per router, 1 lost message, expiry, 'no keys' errors; every delivery order) and the driver collects every quiescent state in which both routers are set up with different keys. R: the shortest schedule to every mismatch class and a seeded sample of all other schedules replayed on two real router stacks; T: TLC simulation walks (3 starts, 2 losses) replayed; at every quiescent point IsSetUp and real seal/unseal both ways are observed and judged by TLC (KeySetup_Trace). R-link-overlap: one hello exchange (one initiator) and one link handshake between the same two routers (LinkDial / LinkRecv of KeySetup.tla: six signed messages on an ordered connection, finalize installs the handshake's keys as the end-to-end session); TLC enumerates every placement (quick: a seeded subset, overlapping set-ups first; thorough: all, and a sample with one lost and one duplicated hello message), executed as real link set-ups whose messages the schedule releases, the hello pings routed over a third router; same observation, same oracle. distinct = distinct schedules executed")
+	c.Assume("a hello exchange is started through HelloPingHandler.Send exactly when the model's Start is enabled (what handleTunPacket does for a packet to a router without established encryption)", "expiry of the 30 s / 5 s windows is produced with a guarded hook",
+		"link stage: the two routers are not linked before the handshake and reach each other over a relay whose routes came from real announcements; a quiescent mismatch that the specification of the code as it is predicts for a hello exchange straddling a finalisation is counted in the evidence (link_overlap_design_mismatches_...) and raised only if known_findings.json lists its key; every mismatch the specification does not predict is a verdict")
 
 	d, err := c.TLC("KeySetup", "KeySetup_Dump.cfg", vf.TLCOpts{Workers: 1, Timeout: 20 * time.Minute, Heap: "8g"})
 	if err != nil {
@@ -440,6 +493,9 @@ func run(c *vf.Ctx) {
 	drift := 0
 	// replay executes a path of edge indexes; reports a violation when the real routers end in a mismatch
 	var replaySteps func(steps []mstep, label string)
+	var replayOn func(pr *pair, steps []mstep, label string)
+	// link stage: quiescent mismatches the specification of the code as it is predicts (and the real routers confirm)
+	lst := &linkStats{design: map[string]int{}, sample: map[string][]string{}}
 	replay := func(p []int, label string) {
 		var steps []mstep
 		for _, ei := range p {
@@ -451,8 +507,9 @@ func run(c *vf.Ctx) {
 		}
 		replaySteps(steps, label)
 	}
-	replaySteps = func(steps []mstep, label string) {
-		pr := newPair()
+	replaySteps = func(steps []mstep, label string) { replayOn(newPair(), steps, label) }
+	replayOn = func(pr *pair, steps []mstep, label string) {
+		defer pr.closeLink()
 		events = append(events, map[string]any{"ev": "reset", "what": label})
 		traces++
 		okRun := true
@@ -467,11 +524,25 @@ func run(c *vf.Ctx) {
 				}
 			}
 			if !pr.exec(c, st.A, created) {
+				if pr.setupErr != nil {
+					// the stage itself could not be run: never a verdict
+					c.Broken("link stage, run %s: %v (after %v)", label, pr.setupErr, pr.steps)
+					return
+				}
 				// The real routers did not follow the specification of the code as it is
 				// (e.g. they answered a message the model drops). Let the network drain
 				// and judge what they ended up with by the property itself.
 				drift++
 				okRun = false
+				divKey := "mismatch/divergent/code"
+				if pr.linkStage {
+					lst.drift++
+					divKey = "mismatch/link-divergent/code"
+					pr.drainLink()
+					if os.Getenv("VERIF_C14_DEBUG") != "" {
+						c.Logf("link stage: divergence in %s after %v", label, pr.steps)
+					}
+				}
 				for k := 0; k < 200 && pr.ms.W.NInflight() > 0; k++ {
 					fl := pr.ms.W.Take(0)
 					_, _ = pr.ms.W.Deliver(fl)
@@ -480,7 +551,7 @@ func run(c *vf.Ctx) {
 				events = append(events, map[string]any{"ev": "step", "what": "divergence from the model; network drained"})
 				if o.ASet && o.BSet && !(o.A2B && o.B2A) {
 					steps := append([]string(nil), pr.steps...)
-					c.Violation("mismatch/divergent/code", fmt.Sprintf("both routers report encryption established but cannot decrypt each other (A->B %v, B->A %v) after: %v (then the network drained); the specification of the code as it is does not allow the last step's outcome", o.A2B, o.B2A, steps),
+					c.Violation(divKey, fmt.Sprintf("both routers report encryption established but cannot decrypt each other (A->B %v, B->A %v) after: %v (then the network drained); the specification of the code as it is does not allow the last step's outcome", o.A2B, o.B2A, steps),
 						map[string]any{"schedule": steps, "observed": o}, nil)
 				} else {
 					events = append(events, map[string]any{"ev": "quiet", "aset": o.ASet, "bset": o.BSet, "a2b": o.A2B, "b2a": o.B2A, "class": "divergent"})
@@ -495,7 +566,7 @@ func run(c *vf.Ctx) {
 					quiet = false
 				}
 			}
-			if quiet {
+			if quiet && !ms.busy {
 				o := pr.observe()
 				if os.Getenv("VERIF_C14_DEBUG") != "" && strings.Contains(strings.Join(pr.steps, ";"), "forget") {
 					fmt.Printf("DBG dirs=%d obs=%+v steps=%v\n", pr.dirs, o, pr.steps)
@@ -518,6 +589,21 @@ func run(c *vf.Ctx) {
 					cls := fmt.Sprintf("mismatch/%s/%s", roles, origin)
 					_ = loss
 					steps := append([]string(nil), pr.steps...)
+					if pr.linkStage && ms.bad && !listedOpen(c.ID, cls) {
+						// The specification of the code as it is (last writer wins at each router on its own) predicts this
+						// mismatch of a hello exchange that straddles a finalisation, and the real routers confirm it. It is
+						// not among the entries of known_findings.json; it is counted and shown in the evidence and the log,
+						// the verdicts of this stage are the mismatches the specification does NOT predict.
+						lst.design[cls]++
+						if lst.sample[cls] == nil {
+							lst.sample[cls] = steps
+						}
+						events = events[:len(events)-1]
+						return
+					}
+					if pr.linkStage && !ms.bad {
+						lst.code++
+					}
 					c.Violation(cls, fmt.Sprintf("both routers report encryption established but cannot decrypt each other (A->B %v, B->A %v) after: %v", o.A2B, o.B2A, steps),
 						map[string]any{"schedule": steps, "observed": o, "model_roles": roles}, nil)
 					// the trace would be rejected here; keep the batch acceptable for the
@@ -530,6 +616,10 @@ func run(c *vf.Ctx) {
 		_ = okRun
 	}
 
+	if os.Getenv("VERIF_C14_ONLY") == "link" { // debugging aid: the link stage alone (never used by bin/check)
+		linkStage(c, replayOn, lst)
+		return
+	}
 	for _, cls := range classes {
 		replay(classPath[cls], cls)
 		c.Distinct(cls)
@@ -638,6 +728,7 @@ func run(c *vf.Ctx) {
 		}
 		c.Stage("R-rekey", map[string]any{"distinct": df.Distinct, "edges": len(gf.Edges), "cover_paths": ftotal, "executed": len(fpaths), "observation_directions": 3})
 	}
+	linkStage(c, replayOn, lst)
 	paths := g.CoverPaths(0)
 	total := len(paths)
 	if lim := c.Pick(300, 100000); len(paths) > lim {
